@@ -73,21 +73,21 @@ PROPS.update({
                    "check_join / joinable raise exactly on incompatible content; replace() raises ReplaceError for an inverted range, content deeper than the insertion position or inconsistent open depths; Node.replace / Node.resolve report out-of-range positions with ValueError and index nothing; "
                    "insert_into / Slice.insert_at (where a replace-around step drops its gap content) return a fragment exactly when the landing node -- found by descending along the child that holds the offset -- is incomplete (slice top level / open side) or accepts the content there; "
                    "DEEP VALIDITY of the rebuild: with dvalid(n) = the node's children match its content expression to a valid end, carry allowed marks and are themselves dvalid, "
-                   "Fragment.append (size equation, text merge) and Fragment.cut (at child boundaries / inside text), add_node / add_range / replace_two_way (every deletion) and replace_outer (all four branches, the three-way branch relative to the trusted replace_three_way) keep deep validity, hence Node.replace, StepResult.from_replace and ReplaceStep.apply return a deeply valid document "
-                   "whenever the input document is deeply valid and the nodes of a closed slice are (the property's hypothesis) -- or raise / fail; "
+                   "Fragment.append (size equation, text merge) and Fragment.cut (at child boundaries / inside text), add_node / add_range / replace_two_way (every deletion) replace_three_way (rebuild around an open slice) and replace_outer (all four branches) keep deep validity, hence Node.replace, StepResult.from_replace and ReplaceStep.apply return a deeply valid document "
+                   "whenever the input document is deeply valid, the nodes of a closed slice are, and the slice wrapped in copies of the insertion point's ancestors (prepare_slice_for_replace, trusted) is a deeply valid tree -- or raise / fail; "
                    "StepResult.from_replace turns every ReplaceError into a failed result (failed xor doc); ReplaceStep.apply / ReplaceAroundStep.apply fail when a structure step would overwrite content and when the gap is not flat; content_between terminates and indexes safely.",
                    "that the document a step returns is valid at every node (oracle validity) for all eight step kinds, directly and through JSON, with well-formed and malformed (out-of-range, out-of-order) positions, nested / open wrapper slices; replace_outer / replace_two_way / replace_three_way recursion is outside the proved set (trusted contracts listed in the evidence).",
-                   assumptions=("A1", "A4", "A5", "A6", "A9", "A10", "Z3", "PYVC"), min_obligations=440, shards={"ReplaceAroundStep.apply": 4, "insert_into": 4, "add_range": 16, "replace_outer": 8, "replace_two_way": 2, "Fragment.cut": 8, "Fragment.append": 4},
-                   bounded_only=["replace_three_way / prepare_slice_for_replace (open or non-flat slices), remove_range: trusted contracts", "canonical mark order at every node", "ReplaceAroundStep: validity of the slice after the gap content is dropped in", "mark / attribute / node-mark step apply bodies", "Step.from_json decoding"]),
+                   assumptions=("A1", "A4", "A5", "A6", "A9", "A10", "Z3", "PYVC"), min_obligations=440, shards={"ReplaceAroundStep.apply": 4, "insert_into": 4, "add_range": 16, "replace_outer": 8, "replace_two_way": 2, "Fragment.cut": 8, "Fragment.append": 4, "replace_three_way": 8},
+                   bounded_only=["prepare_slice_for_replace (depths of the two open ends in the wrapped slice): trusted contract, evaluated natively; open slices whose spine nodes are not valid by themselves (partial nodes) are outside the proved statement", "remove_range", "canonical mark order at every node", "ReplaceAroundStep: validity of the slice after the gap content is dropped in", "mark / attribute / node-mark step apply bodies", "Step.from_json decoding"]),
     "C02": _hybrid("C02", "c02", ["contracts.model_replace"],
                    "the size / index algebra replace and slice are built from: Fragment.__init__ (size == sum of child sizes, class invariant proved at every construction), find_index (offset == prefix sum, "
                    "position at the boundary or strictly inside the child selected by the rounding side, termination), cut_by_index, replace_child, add_to_start, add_to_end (content and size), child / maybe_child / first_child / last_child, node_size, "
                    "with the prefix-sum lemmas proved by induction; the join and validation points of replace: close (rebuilt node valid at its level or ReplaceError), check_join / joinable / NodeType.compatible_content (raise exactly on incompatible content), "
                    "replace() guards (inverted range, slice open deeper than its content, depth mismatch), Node.replace range errors; "
-                   "deep validity of the rebuild (add_node, add_range, replace_two_way, replace_outer, Node.replace: a deeply valid document stays deeply valid, relative to the trusted three-way branch; see C01).",
+                   "deep validity of the rebuild (add_node, add_range, replace_two_way, replace_outer, Node.replace: a deeply valid document stays deeply valid, including the three-way rebuild around open slices, relative to the trusted prepare_slice_for_replace contract; see C01).",
                    "that Node.slice / Node.replace are exactly a splice of the flat token sequence (token oracle for every range of small documents and a pool of foreign slices); replace_outer / replace_two_way / replace_three_way / close / join recursion is outside the proved set.",
                    assumptions=("A1", "A4", "A5", "A6", "A7", "A9", "A10", "Z3", "PYVC"), min_obligations=400,
-                   shards={"add_range": 16, "replace_outer": 8, "replace_two_way": 2, "Fragment.cut": 8, "Fragment.append": 4},
+                   shards={"add_range": 16, "replace_outer": 8, "replace_two_way": 2, "Fragment.cut": 8, "Fragment.append": 4, "replace_three_way": 8},
                    bounded_only=["token-level splice semantics of Node.replace / Node.slice", "Fragment.from_array (text merging); token content of Fragment.cut / append", "schema validity of the result"]),
     "C03": _hybrid("C03", "c03", ["contracts.transform_steps"],
                    "the shape of every step's map (ReplaceStep / ReplaceAroundStep.get_map ranges from the step's fields, empty map for attribute / mark steps), "
